@@ -74,7 +74,7 @@ def main():
             na.append({"property_id": p, "reason": na_reasons.get(p, "no check registered yet (work in progress; see DESIGN.md §7 staging)")})
     man = {
         "version": 1,
-        "setup_cmd": "cd lean && lake build Rl4co driver",
+        "setup_cmd": "cd lean && lake build",
         "hooks": {"guard": "RL4CO_VERIF", "enable": "no hooks are needed: every observation point is public API; checks import rl4co from /repo's working tree",
                   "baseline_off_cmd": "cd /repo && /venv/bin/python -m pytest -ra -q -p no:cacheprovider --timeout=900 --continue-on-collection-errors",
                   "source_commits": [], "add_only": True},
